@@ -2,56 +2,81 @@ package vc
 
 import (
 	"fmt"
+	"go/ast"
 	"go/types"
+	"sort"
+
+	"golang.org/x/tools/go/packages"
 )
 
 // CheckDefinedTypeCodecs: structural obligation (go/types method sets, like the
 // sealing obligations of C02) for every defined type of the emitted package
-// whose underlying type is the underlying type of another type of the package
+// declared over another type of the package (`type T U`, no `=`)
 // that brings JSON methods of its own (`type NewPetJSON NewPet`, a request body
 // component over a schema component): a defined type does not inherit methods,
 // so it would be decoded / encoded by reflection (Go field names, no
 // required-member check) where the type it was declared from follows its
 // schema. The obligation: such a type has the method too (an alias has).
 func (cr *CheckRun) CheckDefinedTypeCodecs(job *EmittedJob) {
-	scope := job.Em.Pkg.Pkg.Scope()
-	var named []*types.Named
-	for _, n := range scope.Names() {
-		tn, ok := scope.Lookup(n).(*types.TypeName)
-		if !ok || tn.IsAlias() {
-			continue
-		}
-		if nt, ok := tn.Type().(*types.Named); ok && nt.TypeParams().Len() == 0 {
-			named = append(named, nt)
+	var pkg *packages.Package
+	for _, p := range job.Em.W.Pkgs {
+		if p.Types == job.Em.Pkg.Pkg {
+			pkg = p
 		}
 	}
+	if pkg == nil || pkg.TypesInfo == nil {
+		return
+	}
+	// declarations of the shape `type T U` (no `=`) with U a type of the package
+	type decl struct {
+		name   string
+		t, src *types.Named
+	}
+	var decls []decl
+	for _, file := range pkg.Syntax {
+		for _, d := range file.Decls {
+			gd, ok := d.(*ast.GenDecl)
+			if !ok {
+				continue
+			}
+			for _, sp := range gd.Specs {
+				ts, ok := sp.(*ast.TypeSpec)
+				if !ok || ts.TypeParams != nil { // aliases included: they hold the obligation by construction
+					continue
+				}
+				id, ok := ts.Type.(*ast.Ident)
+				if !ok {
+					continue
+				}
+				tn, _ := pkg.TypesInfo.Defs[ts.Name].(*types.TypeName)
+				un, _ := pkg.TypesInfo.Uses[id].(*types.TypeName)
+				if tn == nil || un == nil || un.Pkg() != tn.Pkg() {
+					continue
+				}
+				t, _ := types.Unalias(tn.Type()).(*types.Named)
+				src, _ := types.Unalias(un.Type()).(*types.Named)
+				if t != nil && src != nil {
+					decls = append(decls, decl{ts.Name.Name, t, src})
+				}
+			}
+		}
+	}
+	sort.Slice(decls, func(i, j int) bool { return decls[i].name < decls[j].name })
 	for _, mp := range [][2]string{{"MarshalJSON", "C07"}, {"UnmarshalJSON", "C08"}} {
 		method, prop := mp[0], mp[1]
 		if cr.Prop != prop && cr.Prop != "C06" {
 			continue
 		}
-		for _, t := range named {
-			switch t.Underlying().(type) {
-			case *types.Struct, *types.Slice, *types.Map:
-			default:
+		for _, d := range decls {
+			if !hasMethod(d.src, method) {
 				continue
 			}
-			var src *types.Named
-			for _, u := range named {
-				if u != t && hasMethod(u, method) && types.Identical(u.Underlying(), t.Underlying()) {
-					src = u
-					break
-				}
-			}
-			if src == nil {
-				continue
-			}
-			ok := hasMethod(t, method)
+			ok := hasMethod(d.t, method)
 			detail := ""
 			if !ok {
-				detail = fmt.Sprintf("type %s is a defined type with the structure of %s but without its %s: values are handled by reflection (Go field names, no required-member / kind checks)", t.Obj().Name(), src.Obj().Name(), method)
+				detail = fmt.Sprintf("type %s is declared as a defined type over %s and does not have its %s: values are handled by reflection (Go field names, no required-member / kind checks)", d.name, d.src.Obj().Name(), method)
 			}
-			cr.recordSimple("emitted["+job.Em.Entry.Name+"].type:"+t.Obj().Name()+"/own-codec:"+method, ok, detail, "go/types method sets")
+			cr.recordSimple("emitted["+job.Em.Entry.Name+"].type:"+d.name+"/own-codec:"+method, ok, detail, "go/types method sets")
 		}
 	}
 }
